@@ -1228,6 +1228,8 @@ def c06_check(prop, tier, seed, t0):
     return status
 
 
+THREAD_EXPLORE_FINE3 = ["sys=merge n=3 th=3 q0=- q1=- q2=- f0=T f1=E101 f2=T free=1",
+                        "sys=merge n=3 th=3 q0=1 q1=- q2=- f0=N f1=E101 f2=T free=1"]
 THREAD_EXPLORE = {
     "take": ["sys=take fixed=1 n=1 th=2 q0=1 q1=2 f0=N f1=N",
              "sys=take fixed=1 n=1 th=2 q0=1,2 q1=3 f0=N f1=N",
@@ -1240,6 +1242,12 @@ THREAD_EXPLORE = {
               "sys=merge n=2 th=2 q0=- q1=- f0=T f1=T",
               "sys=merge n=3 th=3 q0=1 q1=- q2=3 f0=T f1=E101 f2=T",
               "sys=merge n=3 th=3 q0=1 q1=2 q2=- f0=T f1=T f2=T"],
+    "takemerge": ["sys=takemerge fixed=1 n=1 th=2 q0=1 q1=- f0=T f1=E101",
+                  "sys=takemerge fixed=1 n=2 th=2 q0=1,3 q1=2 f0=T f1=T",
+                  "sys=takemerge fixed=1 n=2 th=2 q0=1 q1=2 f0=E100 f1=T",
+                  "sys=takemerge fixed=1 n=1 th=2 q0=1,3 q1=2 f0=T f1=E101",
+                  "sys=takemerge fixed=1 n=2 th=3 q0=1 q1=2 q2=- f0=T f1=N f2=E102",
+                  "sys=takemerge fixed=1 n=1 th=3 q0=1 q1=- q2=- f0=T f1=T f2=E102"],
     "combine": ["sys=combine fixed=1 n=2 th=2 q0=1 q1=2 f0=T f1=T",
                 "sys=combine fixed=1 n=2 th=2 q0=1,3 q1=2 f0=T f1=T",
                 "sys=combine fixed=1 n=2 th=2 q0=1 q1=2 f0=E100 f1=T",
@@ -1287,6 +1295,22 @@ def thread_check(prop, tier, seed, t0, syss, kinds, real_only=()):
                 if bl.startswith("BAD "):
                     sched = re.search(r"sched=(\S+)", bl).group(1)
                     model_bad.append("%s sched=%s" % (cfg, sched))
+    # merge at the granularity of every access, the talkback cells included (coq/theories/ThreadsFine.v):
+    # every schedule of small configurations, in the extracted model
+    if "merge" in syss:
+        fine_cfgs = [c + " free=1" for c in THREAD_EXPLORE["merge"][:3]]
+        if tier == "thorough":
+            fine_cfgs += THREAD_EXPLORE_FINE3
+        def explore_fine(cfg):
+            return cfg, sh([DRIVER, "texplore", "3"] + cfg.split(), timeout=3000)
+        for cfg, r in parallel_map(explore_fine, fine_cfgs):
+            if r.returncode != 0:
+                raise Fail("thread exploration failed: " + r.stderr[-1000:])
+            m = re.search(r"schedules=(\d+) violating=(\d+)", r.stdout)
+            explored[cfg] = dict(schedules=int(m.group(1)), violating_in_model=int(m.group(2)))
+            for bl in r.stdout.splitlines():
+                if bl.startswith("BAD "):
+                    model_bad.append("%s sched=%s" % (cfg, re.search(r"sched=(\S+)", bl).group(1)))
     lines += model_bad
     # every schedule prefix of length L over two threads, on the real crate (the rest drains in index order)
     import itertools
@@ -1297,22 +1321,40 @@ def thread_check(prop, tier, seed, t0, syss, kinds, real_only=()):
             for seq in itertools.product("01", repeat=L):
                 lines.append("%s sched=%s" % (cfg, ",".join(seq)))
                 n_exh += 1
+    if "merge" in syss:
+        # the same on the finer scheduling points
+        Lf = 9 if tier == "quick" else 13
+        for cfg in THREAD_EXPLORE["merge"][:2 if tier == "quick" else 3]:
+            for seq in itertools.product("01", repeat=Lf):
+                lines.append("%s free=1 sched=%s" % (cfg, ",".join(seq)))
+                n_exh += 1
     n_rand = 3000 if tier == "quick" else 60000
     r = sh([DRIVER, "tgen", str(seed), str(n_rand)] + syss)
     if r.returncode != 0:
         raise Fail("thread script generation failed: " + r.stderr[-1000:])
     lines += [l for l in r.stdout.splitlines() if l.strip()]
-    # real-only systems (take behind merge): same generator, renamed
+    # take behind merge (coq/theories/ThreadsTakeMerge.v): the merge generator, renamed; a member may fail
     ro_lines = []
     for ro in real_only:
         r = sh([DRIVER, "tgen", str(seed + 7), str(n_rand // 3), "merge"])
+        k = 0
         for l in r.stdout.splitlines():
             if l.strip():
-                nmax = 1 + (len(ro_lines) % 3)
-                l2 = re.sub(r"sys=merge fixed=1 n=(\d+)", "sys=%s fixed=1 n=%d" % (ro, nmax), l)
-                # C19 quantifies over racing deliveries: members complete or just stop, they do not fail
-                l2 = re.sub(r"(f\d)=E\d+", r"\1=T", l2)
-                ro_lines.append(l2)
+                k += 1
+                lines.append(re.sub(r"sys=merge fixed=1 n=(\d+)", "sys=%s fixed=1 n=%d" % (ro, 1 + (k % 3)), l))
+        for cfg in THREAD_EXPLORE[ro] if tier == "thorough" else THREAD_EXPLORE[ro][:3]:
+            r = sh([DRIVER, "texplore", "3"] + cfg.split(), timeout=3000)
+            if r.returncode != 0:
+                raise Fail("thread exploration failed: " + r.stderr[-1000:])
+            m = re.search(r"schedules=(\d+) violating=(\d+)", r.stdout)
+            explored[cfg] = dict(schedules=int(m.group(1)), violating_in_model=int(m.group(2)))
+            for bl in r.stdout.splitlines():
+                if bl.startswith("BAD "):
+                    lines.append("%s sched=%s" % (cfg, re.search(r"sched=(\S+)", bl).group(1)))
+        for cfg in [c for c in THREAD_EXPLORE[ro] if "th=2" in c][:2 if tier == "quick" else 4]:
+            for seq in itertools.product("01", repeat=L):
+                lines.append("%s sched=%s" % (cfg, ",".join(seq)))
+                n_exh += 1
 
     # free mode: every instrumented access is a scheduling point, including the talkback cells (slot.*), which
     # the interleaving model does not have; random schedules, judged by the property checks on the crate's trace
@@ -1326,10 +1368,14 @@ def thread_check(prop, tier, seed, t0, syss, kinds, real_only=()):
             nth = int(re.search(r"th=(\d+)", cfg).group(1))
             sched = ",".join(str(rnd.randrange(nth)) for _ in range(rnd.randrange(8, 70)))
             free_lines.append("%s free=1 sched=%s" % (cfg, sched))
-    ro_lines += free_lines
-    # corpus schedules that use the finer scheduling points have no counterpart in the model either
-    ro_lines += [l for l in lines if "free=1" in l]
-    lines = [l for l in lines if "free=1" not in l]
+    # merge has an interleaving model at that granularity (ThreadsFine.v): its free runs are compared with
+    # the model event by event like the others; for take and combine they are judged on the crate's trace alone
+    def fine_model(l):
+        return "free=1" in l and "sys=merge " in l
+    lines += [l for l in free_lines if fine_model(l)]
+    ro_lines += [l for l in lines if "free=1" in l and not fine_model(l)]
+    ro_lines += [l for l in free_lines if not fine_model(l)]
+    lines = [l for l in lines if "free=1" not in l or fine_model(l)]
 
     def work(ch):
         if not ch:
@@ -1385,7 +1431,7 @@ def thread_check(prop, tier, seed, t0, syss, kinds, real_only=()):
         problem = None
         if mism:
             a, m, h = mism[0]
-            problem = dict(kind="correspondence-broken", what="thread model (coq/theories/Threads.v) and crate disagree",
+            problem = dict(kind="correspondence-broken", what="thread model (coq/theories/Threads.v; free=1: ThreadsFine.v; takemerge: ThreadsTakeMerge.v) and crate disagree",
                            thread_script=a, model_trace=m, crate_trace=h, mismatching=len(mism))
         elif seq_mis:
             a, m, h = seq_mis[0]
@@ -1403,7 +1449,8 @@ def thread_check(prop, tier, seed, t0, syss, kinds, real_only=()):
         obligations=max(1, audit["obligations"]), discharged=audit["discharged"],
         checker_cmd="coqc -Q coq/theories CB coq/theories/Properties/%s.v (after make -C coq)" % prop,
         trusted_base=TRUSTED_BASE + ["interleaving model coq/theories/Threads.v (sequentially consistent, one scheduling point "
-                                     "per instrumented access and per sink delivery)",
+                                     "per instrumented access and per sink delivery); merge also at the granularity of every "
+                                     "talkback-cell access (coq/theories/ThreadsFine.v, scripts with free=1)",
                                      "hooks /repo/src/verif_hooks.rs and the token-passing scheduler harness/src/threads.rs"],
         theorems=audit["theorems"], axioms=audit["axioms"], audit_problems=audit["problems"],
         evaluations=len(lines) + len(ro_lines), distinct_nontrivial=len(distinct),
@@ -1415,6 +1462,7 @@ def thread_check(prop, tier, seed, t0, syss, kinds, real_only=()):
         model_exhaustive_exploration=explored,
         real_exhaustive_schedule_prefixes=dict(length=L, runs=n_exh),
         real_only_runs=len(ro_lines), free_schedule_runs_with_talkback_cell_scheduling_points=len(free_lines),
+        free_schedule_runs_compared_with_the_fine_model=len([l for l in lines if fine_model(l)]),
         source_files_differing_from_pinned_tree=changed, components_searched_deeper=hot,
         hooked_build_sequential_scripts=len(seq_scripts), hooked_build_sequential_mismatches=len(seq_mis),
         samples=[dict(script=a, crate_trace=h) for a, h in list(zip(lines, real))[:2] + list(zip(lines, real))[-2:]],
